@@ -55,16 +55,18 @@ pub fn sigma() -> Vec<Op> {
         Op::Remove(s("/d")),                       // 28 (empty-directory check then unlink)
         Op::Mkfile(s("/d/g")),                     // 29
         Op::MoveP(s("/e"), s("/d/h")),             // 30
+        Op::MkdirP(s("/d/f")),                     // 31 (re-creates the file's name as a directory)
+        Op::Symlink(s("/d/f"), s("/e")),           // 32 (re-creates the file's name as a link)
         // multi-step by contract: only (a) and (d) apply to programs containing these
-        Op::Chmod(s("/d"), 0o700),                 // 31
-        Op::Chown(s("/d"), 5, 6),                  // 32
-        Op::MkfileM(s("/d/f"), 0o600),             // 33
-        Op::WriteHandle(s("/d/f"), vec![b"h".to_vec(), b"i".to_vec()], vec![true, false]), // 34
-        Op::AppendHandle(s("/d/f"), vec![b"j".to_vec(), b"k".to_vec()], vec![true, false]), // 35
+        Op::Chmod(s("/d"), 0o700),                 // 33
+        Op::Chown(s("/d"), 5, 6),                  // 34
+        Op::MkfileM(s("/d/f"), 0o600),             // 35
+        Op::WriteHandle(s("/d/f"), vec![b"h".to_vec(), b"i".to_vec()], vec![true, false]), // 36
+        Op::AppendHandle(s("/d/f"), vec![b"j".to_vec(), b"k".to_vec()], vec![true, false]), // 37
     ]
 }
 
-const N_ATOMIC: usize = 31;
+const N_ATOMIC: usize = 33;
 
 fn multi_step(op: &Op) -> bool {
     matches!(op, Op::Chmod(..) | Op::ChmodB(..) | Op::Chown(..) | Op::ChownB(..) | Op::MkfileM(..) | Op::WriteHandle(..) | Op::AppendHandle(..))
@@ -248,6 +250,21 @@ fn check_execution(init_idx: usize, sig: &[Op], prog: &Prog, e: &Execution, seq:
     format!("{:?}|{:?}", outs, dump.files.iter().map(|f| (&f.key, &f.data)).collect::<Vec<_>>())
 }
 
+fn new_totals() -> Totals {
+    Totals {
+        programs: AtomicU64::new(0),
+        schedules: AtomicU64::new(0),
+        sections: AtomicU64::new(0),
+        colliding_programs: AtomicU64::new(0),
+        max_outcomes: AtomicU64::new(0),
+        dropped_order_dependent: AtomicU64::new(0),
+        capped_programs: AtomicU64::new(0),
+        lin_checked: AtomicU64::new(0),
+        outcomes_total: AtomicU64::new(0),
+        samples: Mutex::new(vec![]),
+    }
+}
+
 fn run_program(ex: &Explorer, init_idx: usize, sig: &[Op], prog: &Prog, tot: &Totals, bound: Option<u32>, cap: u64) -> Result<(), String> {
     let setup = &inits()[init_idx].1;
     let programs: Vec<Vec<Op>> = prog.iter().map(|p| p.iter().map(|&i| sig[i].clone()).collect()).collect();
@@ -355,6 +372,19 @@ fn families(tier: Tier) -> Vec<Family> {
         Family { name: "3x1 over the atomic alphabet", progs: programs_tk(&atomic, 3, 1), bound: None, cap: 200_000 },
         Family { name: "2x2 over a 10-call core", progs: programs_tk(&core10, 2, 2), bound: None, cap: 200_000 },
     ];
+    // a write/append handle that stays open (open, write, flush, write, drop = several critical sections)
+    // while another thread removes / re-creates / moves the file's name in two steps
+    let handle_core: Vec<usize> = vec![2, 6, 7, 8, 9, 31, 32];
+    let mut hp: Vec<Prog> = vec![];
+    for h in [36usize, 37] {
+        for b in sequences(&handle_core, 2) {
+            hp.push(vec![vec![h], b]);
+        }
+        for b in sequences(&handle_core, 1) {
+            hp.push(vec![vec![h], b.clone(), vec![31]]);
+        }
+    }
+    f.push(Family { name: "open write/append handle x 2 calls on the same name", progs: hp, bound: None, cap: 200_000 });
     if tier == Tier::Thorough {
         f.push(Family { name: "2x2 over the atomic alphabet", progs: programs_tk(&atomic, 2, 2), bound: None, cap: 200_000 });
         f.push(Family { name: "2x3 over a 6-call core", progs: programs_tk(&core6, 2, 3), bound: None, cap: 200_000 });
@@ -369,8 +399,20 @@ pub fn run(ctx: &Ctx) -> i32 {
     if let Some(p) = &ctx.replay {
         return replay(ctx, p);
     }
+    if let Ok(f) = std::env::var("RVMC_CRUMB_REPLAY") {
+        // abort triage: explore exactly one recorded program in this process
+        let j = json::parse(&std::fs::read_to_string(&f).expect("crumb")).expect("crumb json");
+        let sig = sigma();
+        let init_idx = j.get("init").and_then(|x| x.as_i64()).unwrap_or(0) as usize;
+        let prog: Prog = j.get("program_idx").and_then(|x| x.as_arr()).expect("program_idx").iter().map(|t| t.as_arr().unwrap().iter().map(|x| x.as_i64().unwrap() as usize).collect()).collect();
+        let tot = new_totals();
+        let ex = Explorer::new(3);
+        let _ = run_program(&ex, init_idx, &sig, &prog, &tot, None, 200_000);
+        return 0;
+    }
     let sig = sigma();
-    let tot = Totals {
+    let tot = new_totals();
+    let _unused = Totals {
         programs: AtomicU64::new(0),
         schedules: AtomicU64::new(0),
         sections: AtomicU64::new(0),
@@ -391,8 +433,9 @@ pub fn run(ctx: &Ctx) -> i32 {
         let work: Vec<(usize, &Prog)> = (0..inits().len()).flat_map(|i| fam.progs.iter().map(move |p| (i, p))).collect();
         let next = std::sync::atomic::AtomicUsize::new(0);
         std::thread::scope(|sc| {
-            for _ in 0..slots {
-                sc.spawn(|| {
+            for slot_id in 0..slots {
+                let (next, work, sig, tot, machinery, fam) = (&next, &work, &sig, &tot, &machinery, &fam);
+                sc.spawn(move || {
                     let ex = Explorer::new(3);
                     loop {
                         let k = next.fetch_add(1, Ordering::Relaxed);
@@ -400,6 +443,16 @@ pub fn run(ctx: &Ctx) -> i32 {
                             break;
                         }
                         let (init_idx, prog) = work[k];
+                        crate::common::crumb::set(
+                            slot_id,
+                            &J::obj([
+                                ("init", J::i(init_idx as i64)),
+                                ("program_idx", J::arr(prog.iter().map(|p| J::arr(p.iter().map(|&i| J::i(i as i64)))))),
+                                ("program", J::s(prog_name(&sig, prog))),
+                                ("names", J::s(prog_sig(&sig, prog))),
+                            ])
+                            .to_string(),
+                        );
                         if let Err(e) = run_program(&ex, init_idx, &sig, prog, &tot, fam.bound, fam.cap) {
                             machinery.lock().unwrap().push(format!("{} [{}]", e, prog_name(&sig, prog)));
                         }
